@@ -234,6 +234,8 @@ func checkC20(c *core.Ctx, l *core.Ledger) {
 	}
 	l.Floor("COVER", 5)
 
+	checkCompareEarlyExit(c, l)
+
 	// ---- SET-ORDER
 	for _, f := range c.AllFuncs("internal/compare") {
 		if c.IsTestFile(f.Pos()) || len(f.Blocks) == 0 {
